@@ -258,7 +258,7 @@ func (rn *runner) runServer(d *dataset, qs []*querySpec, cells [][]cell, groups 
 	dir := filepath.Join(c.Scratch, fmt.Sprintf("d%d-%s-%d", d.Index, layout, pt))
 	defer os.RemoveAll(dir)
 	s := proc.New(proc.Config{BGOff: true, Bin: rn.bin, Dir: dir, IP: proc.IP(8, worker), PtNum: pt,
-		Extra: map[string][]string{"data": {`write-cold-duration = "1h"`}}})
+		Extra: map[string][]string{"data.memtable": {`write-cold-duration = "1h"`, `force-snapShot-duration = "1h"`}}})
 	if err := s.Start(); err != nil {
 		c.Broken("start: %v", err)
 		return false
